@@ -23,6 +23,7 @@ package compile
 import (
 	"errors"
 	"fmt"
+	"math"
 
 	"go.uber.org/thriftrw/ast"
 )
@@ -89,7 +90,13 @@ func (c ConstantInt) Link(scope Scope, t TypeSpec) (ConstantValue, error) {
 	rt := RootTypeSpec(t)
 	switch spec := rt.(type) {
 	case *I8Spec, *I16Spec, *I32Spec, *I64Spec:
-		// TODO bounds checks?
+		if !integerFits(int64(c), spec) {
+			return nil, constantValueCastError{
+				Value:  c,
+				Type:   t,
+				Reason: fmt.Errorf("%v is out of range for %q", int64(c), rt.ThriftName()),
+			}
+		}
 		return c, nil
 	case *DoubleSpec:
 		return ConstantDouble(float64(c)).Link(scope, t)
@@ -106,7 +113,7 @@ func (c ConstantInt) Link(scope Scope, t TypeSpec) (ConstantValue, error) {
 		}
 	case *EnumSpec:
 		for _, item := range spec.Items {
-			if item.Value == int32(c) {
+			if int64(item.Value) == int64(c) {
 				return EnumItemReference{Enum: spec, Item: &item}, nil
 			}
 		}
@@ -122,6 +129,19 @@ func (c ConstantInt) Link(scope Scope, t TypeSpec) (ConstantValue, error) {
 	return nil, constantValueCastError{Value: c, Type: t}
 	// TODO: AST for constants will need to track positions for us to
 	// include them in the error messages.
+}
+
+// integerFits reports whether v can be represented by the given integer type.
+func integerFits(v int64, spec TypeSpec) bool {
+	switch spec.(type) {
+	case *I8Spec:
+		return v >= math.MinInt8 && v <= math.MaxInt8
+	case *I16Spec:
+		return v >= math.MinInt16 && v <= math.MaxInt16
+	case *I32Spec:
+		return v >= math.MinInt32 && v <= math.MaxInt32
+	}
+	return true
 }
 
 // Link for ConstantString.
